@@ -91,13 +91,16 @@ Abs(x) == IF x < 0 THEN -x ELSE x
 Onehot(j) == [i \in 1..NLev |-> Num(IF i = j THEN 1 ELSE 0)]               \* Categorical.as_onehot, primitives.py 313-318
 
 (* pipes/rows.py EncodeCatRows 533-623, mode m = cat_actions *)
+RECURSIVE ReprVal(_, _)
 ReprElem(m, e) ==          \* an element of a dense row: 587-606 (onehot splices in place, onehot_tuple nests)
-  IF e.t # "cat" THEN <<e>>
+  IF e.t \in {"seq", "map"} THEN <<ReprVal(m, e)>>      \* a NESTED part is searched the same way (catkey / catset recursion 559-590)
+  ELSE IF e.t # "cat" THEN <<e>>
   ELSE CASE m = "string"       -> <<Str(e.s)>>
          [] m = "onehot_tuple" -> <<Sq(Onehot(e.n))>>
          [] m = "onehot"       -> Onehot(e.n)
 ReprEnt(m, e) ==           \* an entry of a sparse row
-  IF e.v[1].t # "cat" THEN {e}
+  IF e.v[1].t \in {"seq", "map"} THEN {Ent(e.s, ReprVal(m, e.v[1]))}     \* nested part of a sparse row
+  ELSE IF e.v[1].t # "cat" THEN {e}
   ELSE LET c == e.v[1]  j0 == c.n - 1 IN
        CASE m = "string"       -> {Ent(e.s, Str(c.s))}
          [] m = "onehot_tuple" -> {Ent(e.s, Sq(Onehot(c.n)))}
@@ -230,7 +233,7 @@ Rebind(R, old, new, fin) ==
 
 ----------------------------------------------------------------------------
 (* THE CATALOGUE: per shape two sets of three distinct actions of the same form *)
-AllShapes == {"scalar", "string", "cat", "dense", "densecat", "nested", "sparse", "sparsecat", "sparsecatk", "sparsenest", "sparsepart", "sparsezero"}
+AllShapes == {"scalar", "string", "cat", "dense", "densecat", "nested", "sparse", "sparsecat", "sparsecatk", "sparsenest", "sparsepart", "sparsezero", "nestedcat", "nestedmix", "sparsenestcat"}
 ShapeSets(sh) ==
   CASE sh = "scalar"   -> << <<Num(1), Num(2), Num(3)>>, <<Num(2), Num(5), Num(0)>> >>
     [] sh = "string"   -> << <<Str("a"), Str("b"), Str("c")>>, <<Str("c"), Str("d"), Str("a")>> >>
@@ -255,6 +258,16 @@ ShapeSets(sh) ==
                             \* of them (the entries that are not 0 differ) - in both orders
                             << <<Map({Ent("x", Num(1)), Ent("y", Num(0))}), Map({Ent("x", Num(1)), Ent("z", Num(2))}), Map({Ent("z", Num(2))})>>,
                                <<Map({Ent("x", Num(1)), Ent("z", Num(2))}), Map({Ent("x", Num(1)), Ent("y", Num(0))}), Map({Ent("z", Num(2))})>> >>
+    [] sh = "nestedcat" -> \* a categorical ONLY inside a nested part of a dense action (EncodeCatRows re-encodes the nested part; the action
+                           \* changes although its top level holds nothing categorical)
+                           << <<Sq(<<Num(7), Sq(<<Cat(1), Num(2)>>)>>), Sq(<<Num(7), Sq(<<Cat(2), Num(2)>>)>>), Sq(<<Num(8), Sq(<<Cat(2), Num(2)>>)>>)>>,
+                              <<Sq(<<Num(0), Sq(<<Cat(3), Num(1)>>)>>), Sq(<<Num(0), Sq(<<Cat(1), Num(1)>>)>>), Sq(<<Num(0), Sq(<<Cat(3), Num(0)>>)>>)>> >>
+    [] sh = "nestedmix" -> \* categoricals at the top level AND inside a nested part of the same dense action
+                           << <<Sq(<<Cat(1), Sq(<<Cat(2), Num(2)>>)>>), Sq(<<Cat(2), Sq(<<Cat(2), Num(2)>>)>>), Sq(<<Cat(2), Sq(<<Cat(3), Num(2)>>)>>)>>,
+                              <<Sq(<<Cat(3), Sq(<<Cat(3), Num(1)>>)>>), Sq(<<Cat(1), Sq(<<Cat(3), Num(1)>>)>>), Sq(<<Cat(1), Sq(<<Cat(1), Num(1)>>)>>)>> >>
+    [] sh = "sparsenestcat" -> \* sparse actions: a categorical inside a nested vector under one key, a plain categorical under an ordinary key name
+                           << <<Map({Ent("x", Sq(<<Cat(1), Num(1)>>)), Ent("kind", Cat(1))}), Map({Ent("x", Sq(<<Cat(2), Num(1)>>)), Ent("kind", Cat(1))}), Map({Ent("x", Sq(<<Cat(2), Num(1)>>)), Ent("kind", Cat(3))})>>,
+                              <<Map({Ent("x", Sq(<<Cat(3), Num(2)>>)), Ent("kind", Cat(2))}), Map({Ent("x", Sq(<<Cat(3), Num(1)>>)), Ent("kind", Cat(2))}), Map({Ent("x", Sq(<<Cat(1), Num(1)>>)), Ent("kind", Cat(2))})>> >>
     [] sh = "sparsenest" -> << <<Map({Ent("x", NSq(<<1, 2>>)), Ent("y", Num(1))}), Map({Ent("x", NSq(<<0, 2>>))}), Map({Ent("x", NSq(<<2, 2>>)), Ent("y", Num(2))})>>,
                                <<Map({Ent("x", NSq(<<3, 0>>))}), Map({Ent("x", NSq(<<1, 1>>)), Ent("y", Num(1))}), Map({Ent("x", NSq(<<1, 1>>))})>> >>
 
@@ -405,8 +418,15 @@ GroupsOk == /\ Concat(groups) = [n \in Ns |-> n]
             /\ (~batched => \A g \in DOMAIN groups : Len(groups[g]) = 1)
 (* re-applying a representation filter to its own output changes nothing (noise is the exception) *)
 IdemSteps == ReprSteps("full") \cup FlattenSteps("full") \cup SparsifySteps("full") \cup DensifySteps("full") \cup FinalizeSteps("full")
+(* levels of containers below the top level of an action: Flatten removes ONE level per application (pipes/filters.py 203-246), *)
+(* so it is idempotent exactly on actions with at most one (a categorical encoded as a tuple inside a nested part makes two)   *)
+RECURSIVE Nest(_)
+Nest(a) == LET parts == IF a.t = "seq" THEN {a.v[i] : i \in DOMAIN a.v} ELSE IF a.t \in {"map", "sd"} THEN {e.v[1] : e \in a.m} ELSE {}
+               inner == {x \in parts : x.t \in {"seq", "map", "sd"}}
+           IN IF inner = {} THEN 0 ELSE 1 + Max({Nest(x) : x \in inner})
 Idempotent == case.rk = "list" =>      \* the representations do not depend on the reward kind: one of them is enough
               \A st \in IdemSteps : \A n \in Ns : \A i \in DOMAIN acts[n] :
+                 (st.f = "flatten" => Nest(acts[n][i]) <= 1) =>
                  ActT(st, ActT(st, acts[n][i])) = ActT(st, acts[n][i])
 
 (* the edge of the domain: these relabellings DO merge actions, the guard in Do keeps such chains out *)
